@@ -493,6 +493,8 @@ func (x *c12run) star(op string, env starlark.StringDict) (starlark.Value, error
 		c12progs[op] = pg
 	}
 	c12progMu.Unlock()
+	x.th.Uncancel()
+	x.th.SetMaxExecutionSteps(x.th.ExecutionSteps() + 2000000)
 	g, err := pg.Init(x.th, env)
 	if err != nil {
 		return nil, err
